@@ -148,7 +148,7 @@ def run_property(P, tier, seed, replay=None):
         else:
             unlisted.append(c)
     for cl, c in known_seen.items():
-        out_lines.append("KNOWN-FINDING: property=%s class=%s %s (e.g. %s)" % (prop, cl, known[cl], kv.pretty(c.x, 200)))
+        out_lines.append(("KNOWN-FINDING: property=%s class=%s %s" % (prop, cl, known[cl]))[:900] + " (e.g. %s)" % kv.pretty(c.x, 200)[:300])
 
     if unlisted:
         unlisted.sort(key=lambda c: len(kv.xtext(c.x)))
